@@ -30,5 +30,5 @@ SPECS = {
     "C20": props_thread.C20,
 }
 # specs that can be run (./check) but are not claimed in MANIFEST.json yet
-IN_PROGRESS = {"C20"}
+IN_PROGRESS = set()
 NOT_CLAIMED = {}
